@@ -550,12 +550,38 @@ func (g *coreGen) stmts(ind, depth, n int, vars []gvar, rets []string) []gvar {
 					g.line(ind, "case %s:", g.boolExpr(local, 1))
 					g.stmts(ind+1, depth-1, 1+g.r.intn(2), local, rets)
 				}
-			} else {
+				if g.r.chance(50) {
+					// a LATER case whose expression is something the optimizer fuses (the lengths of later case
+					// expressions are part of the exit jumps of earlier cases), also as the second value of a case list
+					cmp := func() string {
+						return fmt.Sprintf("%s %s %s", g.fusableInt(local), pick(g.r, []string{"<", ">", "==", "!=", "<=", ">="}), g.fusableInt(local))
+					}
+					if g.r.chance(40) {
+						g.line(ind, "case %s, %s:", g.boolExpr(local, 0), cmp())
+					} else {
+						g.line(ind, "case %s:", cmp())
+					}
+					g.stmts(ind+1, depth-1, 1+g.r.intn(2), local, rets)
+					g.kinds["switch: fusable later case"]++
+				}
+			} else if g.r.chance(50) {
 				g.line(ind, "switch %s %% 4 {", g.intExpr(local, 1))
 				g.line(ind, "case 0:")
 				g.stmts(ind+1, depth-1, 1+g.r.intn(2), local, rets)
 				g.line(ind, "case 1:")
 				g.stmts(ind+1, depth-1, 1+g.r.intn(2), local, rets)
+			} else {
+				// tagged switch with non-constant (fusable) case expressions after a constant first case
+				g.line(ind, "switch int(%s %% 4) {", g.intExpr(local, 1))
+				g.line(ind, "case 0:")
+				g.stmts(ind+1, depth-1, 1+g.r.intn(2), local, rets)
+				g.line(ind, "case %s:", g.fusableInt(local))
+				g.stmts(ind+1, depth-1, 1+g.r.intn(2), local, rets)
+				if g.r.chance(50) {
+					g.line(ind, "case 100, %s:", g.fusableInt(local))
+					g.stmts(ind+1, depth-1, 1, local, rets)
+				}
+				g.kinds["switch: fusable later case"]++
 			}
 			if g.r.chance(70) {
 				g.line(ind, "default:")
